@@ -486,6 +486,30 @@ fn set_case<T: Elem + Serialize + for<'d> de::Deserialize<'d>>(c: &mut Ctx, rng:
             }
         }
     }
+    // input that repeats elements: the set holds each once
+    {
+        let nk = 1 + rng.below(10) as u32;
+        let n = rng.below(30) as usize;
+        let items: Vec<u64> = (0..n).map(|i| pack(rng.below(nk as u64) as u32 % T::ID_SPACE, i as u16)).collect();
+        let distinct: std::collections::BTreeSet<u32> = items.iter().map(|v| (*v >> 16) as u32).collect();
+        let mut probe = Probe { bytes_at_first: None, max_request_at_first: 0 };
+        let de = De { items, is_map: false, hint: Some(n), fail_at: None, pos: 0, probe: &mut probe };
+        let r: Result<S<T>, Er> = de::Deserialize::deserialize(de);
+        c.evaluations += 1;
+        c.sig_parts(&[6, nk as u64, (n > nk as usize) as u64]);
+        match r {
+            Err(e) => crate::viol!("{}: deserialize with repeated elements failed: {}", what, e),
+            Ok(set) => {
+                let got: std::collections::BTreeSet<u32> = set.iter().map(|x| x.id()).collect();
+                crate::check!(set.len() == distinct.len() && got == distinct, "{}: input repeats elements: the set reports {} elements ({} yielded distinct), {} distinct were given", what, set.len(), got.len(), distinct.len());
+                crate::check!(set.iter().count() == set.len(), "{}: set from repeated input yields {} for len {}", what, set.iter().count(), set.len());
+                SetC(set).validate(&what);
+                if n > distinct.len() {
+                    c.bump("inputs_with_repeated_keys");
+                }
+            }
+        }
+    }
     // failures
     drop(src);
     let n = toks.items.len();
